@@ -186,8 +186,9 @@ class Outcome:
             # the checker diagnosed the program and accepted it all the same: the cause is the diagnostic that does not
             # fail the check (the first one printed); stage and message of the later failure are consequences
             return "diagnosed-not-rejected|%s" % self.titles[0]
-        if family:
-            return "%s|%s|{}|via:%s" % (self.stage, self.detail, family)
+        # (the family of the mutation is NOT part of the key: measured over 35 000 mutants, message x family has several
+        # hundred combinations that keep trickling in, while the over-acceptance behind them - scoping, missing returns,
+        # unchecked element types - is the same across families; the family is reported in the evidence instead)
         return "%s|%s|{}" % (self.stage, self.detail)
 
     def label(self):
@@ -1358,8 +1359,7 @@ class M:
 
 
 MUTATORS = [
-    # (method name, weight, family).  The family names the kind of source construct a mutation introduces; it is part of
-    # the violation key, so that the same failure message reached through another kind of construct is a different finding.
+    # (method name, weight, family).  The family names the kind of source construct a mutation introduces (evidence only).
     ("xfn_local", 10, "ident"), ("swap_idents", 5, "ident"), ("swap_idents_same_fn", 4, "ident"),
     ("op_swap", 9, "operator"), ("str_cmp_order", 4, "operator"), ("cmp_same", 3, "operator"), ("arith_same", 1, "operator"),
     ("strlen_in_cmp", 4, "operator"), ("cmp_of_cmp", 3, "operator"), ("neg_wrap", 3, "operator"), ("not_wrap", 1, "operator"),
